@@ -33,6 +33,12 @@ func NewIOReader(reader io.Reader) ro.Observable[[]byte] {
 
 		for {
 			n, err := reader.Read(buf)
+			if n > 0 {
+				// io.Reader may return data together with an error, and reuses `buf`: hand out a copy first
+				chunk := make([]byte, n)
+				copy(chunk, buf[:n])
+				destination.NextWithContext(ctx, chunk)
+			}
 			if err != nil {
 				if err == io.EOF {
 					destination.CompleteWithContext(ctx)
@@ -41,7 +47,6 @@ func NewIOReader(reader io.Reader) ro.Observable[[]byte] {
 				}
 				break
 			}
-			destination.NextWithContext(ctx, buf[:n])
 		}
 
 		return func() {
